@@ -158,4 +158,5 @@ def main(tier, seed, replay=None):
     ck.cov['query_distribution'] = qdist
     ck.sample(cases[0])
     ck.sample(cases[-1])
-    return ck.finish()
+    import tracecheck as _tc
+    return ck.finish(search=_tc.crash_search(ck, ck.pid))
